@@ -7,22 +7,30 @@ import Wax.Generated
 import Wax.RuleS
 import Wax.Proofs.RuleSpecEquiv
 import Wax.Proofs.DepthTree
+import Wax.Proofs.ExhShape
 /-! Executable fragment tests of the query theorems (`exhaustive_sound_partial`,
 `depth_sound_partial`, `text_exact`), used as classifiers by the checks. -/
 namespace Wax
 
-/-- `F09a` (hypothesis `hfrag` of `exhaustive_sound_partial`) plus `F01` for the compiled program -/
+/-- the fragment of `exhaustive_sound_branch_partial` (`F09b`, which contains `F09a`) plus `F01` for
+    the compiled program; second field: is the conclusion also proved for the matched paths "" and
+    "/" (`exhaustive_beneath_root` / `exhaustive_beneath_branch_root`: `emptyOkS`/`rootOkS` when the
+    last token is a tree wildcard, `nonRootS` otherwise) -/
 def cmdF09 (t : Tok) : String :=
   let ts := t.concatenation
-  let own : List String := match lastTok ts with
+  let own : List String :=
+    if F09b ts then [] else
+    match lastTok ts with
     | none => []
     | some l =>
-      if isTreeTok l || !exhTake l then []
-      else match l with
-        | .sep _ => ["K-EXH-LAST-SEP"]
-        | .zom .. => ["K-EXH-LAST-ZOM"]
-        | _ => ["K-EXH-LAST-BRANCH"]
-  showFrag (own ++ encTags t)
+      match l with
+      | .sep _ => ["K-EXH-LAST-SEP"]
+      | .zom .. => ["K-EXH-LAST-ZOM"]
+      | _ => ["K-EXH-LAST-BRANCH"]
+  let rootOk : Bool := match lastTok ts with
+    | some l => (isTreeTok l && emptyOkS ts && rootOkS ts) || nonRootS ts
+    | none => false
+  showFrag (own ++ encTags t) ++ (if rootOk then " root-ok" else " root-open")
 
 /-- hypothesis of `text_exact_compiled` -/
 def cmdF11 (t : Tok) : String :=
